@@ -218,5 +218,8 @@ class Check(PropertyCheck):
         fails = self.oracle(self.texts(self.scale(1500, 25000) * boost, draw), draw)
         return fails
 
+    def oracle_on_texts(self, texts):
+        return self.oracle([t for t in texts if "{" not in t and "# Legend:" not in t])
+
     def replay_case(self, case):
         return self.oracle([case["input"]])
